@@ -71,6 +71,33 @@ def run(res, tier, seed):
         if n * m <= 35:
             crit_cases.append("(%s, %s, %s, %s, [%s])" % (qimg(ch1), qimg(ch2), qimg(ch4), qimg(ch5),
                                                           "; ".join("[%s]" % "; ".join(common.blit(bool(b)) for b in row) for row in got)))
+    # a tall image (a pass of more than 4096 lines): noise around rows 4095/4096 and elsewhere; numpy oracle only
+    rs = np.random.RandomState(rng.randrange(2 ** 31))
+    n_t, m_t = 4300, 6
+    ch1 = np.full((n_t, m_t), 30.0)
+    ch2 = np.full((n_t, m_t), 30.0)
+    ch4 = np.full((n_t, m_t), 280.0)
+    ch5 = np.full((n_t, m_t), 275.0)
+    for r0 in (10, 2047, 2048, 4093, 4094, 4095, 4096, 4097, 4290):
+        ch1[r0] = np.round(30 + 8 * rs.randn(m_t), 3)
+        ch4[r0] = np.round(280 + 25 * rs.randn(m_t), 3)
+    idx = get_tsm_idx(ch1.copy(), ch2.copy(), ch4.copy(), ch5.copy())
+    got = np.zeros((n_t, m_t), dtype=bool)
+    got[idx] = True
+    rows = sorted(set(range(0, 30)) | set(range(2040, 2056)) | set(range(4085, 4105)) | set(range(4280, 4300)))
+    exp_rows = crit_numpy(ch1[4080:4110], ch2[4080:4110], ch4[4080:4110], ch5[4080:4110])
+    if not np.array_equal(got[4085:4105], exp_rows[5:25]):
+        ij = np.argwhere(got[4085:4105] != exp_rows[5:25])[0]
+        res.violations.append(("flagged pixels are not those whose 3x3 standard deviations of |ch1-ch2| and 100(ch4-ch5)/ch5 both exceed 2 (image of more than 4096 lines)",
+                               dict(shape=[n_t, m_t], pixel=[int(ij[0]) + 4085, int(ij[1])], flagged=bool(got[4085 + ij[0], ij[1]]), seed=seed)))
+    for lo_, hi_ in ((0, 30), (2035, 2060), (4275, 4300)):
+        e_ = crit_numpy(ch1[lo_:hi_], ch2[lo_:hi_], ch4[lo_:hi_], ch5[lo_:hi_])
+        a_, b_ = (0 if lo_ == 0 else 3), (hi_ - lo_ if hi_ == n_t else hi_ - lo_ - 3)
+        if not np.array_equal(got[lo_ + a_:lo_ + b_], e_[a_:b_]):
+            res.violations.append(("flagged pixels of a tall image differ from the criterion", dict(rows=[lo_, hi_], seed=seed)))
+    if got[100:2000].any() or got[2100:4000].any():
+        res.violations.append(("pixels flagged in a noise-free region of a tall image", dict(seed=seed)))
+    res.add_case(("tall", n_t, m_t), True, dict(image=[n_t, m_t], flagged=int(got.sum())))
     # ---------- (a) gate through the readers, (c) end to end ----------
     gate_cases = {"klm": [], "pod": []}
     plans = []
